@@ -115,14 +115,14 @@ theorem normalize_unit (F : Fn α) (n k : Nat) (m : Mat α) (i : Nat) (hi : i < 
 /-- **`laplacian_operator_denote`**: `Laplacian(adjacency, reg, normalized).dot(x)` of the model is
     `(D_reg − A_reg) x`, resp. `S (D_reg − A_reg) S x` with `S = diag(norm_diag)`, where
     `A_reg = A + reg·11ᵀ/n` and `D_reg = diag(A_reg 1)` are the matrices of the specification. -/
-theorem laplacian_operator_denote (F : Fn α) (n : Nat) (hn : 0 < n) (a : Mat α) (reg : α) (hreg : 0 ≤ reg)
+theorem laplacian_operator_denote (F : Fn α) (n : Nat) (hn : 0 < n) (a : Mat α) (reg : α)
     (x : Vec α) (i : Nat) (hi : i < n) :
     vget (lapMatvec (lapInit F n a reg false) a x) i = Spec.lapApply n a reg (vget x) i ∧
     vget (lapMatvec (lapInit F n a reg true) a x) i
       = vget (lapInit F n a reg true).normDiag i
         * Spec.lapApply n a reg (fun j => vget (lapInit F n a reg true).normDiag j * vget x j) i ∧
     vget (lapInit F n a reg true).normDiag i = pinv (F.sqrt (Spec.degReg n a reg i)) := by
-  refine ⟨lapMatvec_plain F n hn a reg hreg x i hi, lapMatvec_normalized F n hn a reg hreg x i hi, ?_⟩
+  refine ⟨lapMatvec_plain F n hn a reg x i hi, lapMatvec_normalized F n hn a reg x i hi, ?_⟩
   rw [lapInit_normDiag F n a reg i hi, degReg_eq n hn]
 
 /-! ### the graph `Spectral.fit` works on -/
@@ -305,7 +305,7 @@ theorem spectral_rw_eigen {out : SpectralOut α}
   obtain ⟨hn, hval, hvec⟩ := spectralFit_ok F nRow nCol b nnz fb nc regParam nm solver true h
   rw [hval] at hc ⊢
   rw [hvec]
-  exact spectralPost_rw_eigen F _ (by omega) _ _ (getRegularization_nonneg _ _) nm hsq _ _ hsol c hc i hi
+  exact spectralPost_rw_eigen F _ (by omega) _ _ nm hsq _ _ hsol c hc i hi
 
 /-- the regularised random-walk transition matrix `D_reg⁺ (A + α 11ᵀ/n)` as a Mathlib matrix -/
 def transitionMatrix (n : Nat) (a : Mat α) (reg : α) : Matrix (Fin n) (Fin n) α :=
@@ -357,7 +357,7 @@ theorem spectral_laplacian_eigen {out : SpectralOut α}
   obtain ⟨hn, hval, hvec⟩ := spectralFit_ok F nRow nCol b nnz fb nc regParam nm solver false h
   rw [hval] at hc ⊢
   rw [hvec]
-  exact spectralPost_laplacian_eigen F _ (by omega) _ _ (getRegularization_nonneg _ _) nm _ _ hsol c hc i hi
+  exact spectralPost_laplacian_eigen F _ (by omega) _ _ nm _ _ hsol c hc i hi
 
 /-- **C09 / Spectral in matrix form, Laplacian.** `L *ᵥ v_c = eigenvalues_[c] • v_c` for `L = D_reg − A_reg`. -/
 theorem spectral_laplacian_eigen_matrix {out : SpectralOut α}
@@ -764,7 +764,7 @@ example :
     `(n, adjacency)` with effective regularisation `reg ≥ 0` is `Σ_{t ≤ K} αᵗ Mᵗ G` (then row-normalised when
     `normalized`), where `M = A + reg·11ᵀ/n` or `M = D_reg⁻¹(A + reg·11ᵀ/n)` (`random_walk`), `G` the random matrix. -/
 theorem randomProjection_closed_form (F : Fn α) (n : Nat) (hn : 0 < n) (adjacency : Mat α) (reg alpha : α)
-    (hreg : 0 ≤ reg) (K : Nat) (rw nm : Bool) (q : Mat α) :
+    (K : Nat) (rw nm : Bool) (q : Mat α) :
     let k := (q.getD 0 []).length
     let closed := mkMat n k (Spec.rpClosedForm n (Spec.rpMultiplierEntry n adjacency reg rw) alpha (mget q) K)
     ∀ i c, i < n → c < k →
@@ -773,7 +773,7 @@ theorem randomProjection_closed_form (F : Fn α) (n : Nat) (hn : 0 < n) (adjacen
   intro k closed i c hi hc
   have hraw : ∀ i c, i < n → c < k → mget (rpLoop n k adjacency reg alpha rw K q q).2 i c = mget closed i c := by
     intro i c hi hc
-    rw [rpLoop_closed_form n k adjacency reg alpha rw hn hreg q K i c hi hc, mget_mkMat_lt _ hi hc]
+    rw [rpLoop_closed_form n k adjacency reg alpha rw hn q K i c hi hc, mget_mkMat_lt _ hi hc]
   unfold rpEmbedding
   cases nm
   · simp only [Bool.false_eq_true, if_false]
@@ -809,7 +809,7 @@ theorem randomProjection_fit (F : Fn α) (nRow nCol : Nat) (b : Mat α) (nnz : N
       rw [← hout]
       refine ⟨rfl, hb.symm, ?_⟩
       intro hn c hc
-      have hcf := randomProjection_closed_form F n hn ga.2.2 reg alpha (getRegularization_nonneg _ _) K rw nm (g n)
+      have hcf := randomProjection_closed_form F n hn ga.2.2 reg alpha K rw nm (g n)
       refine ⟨fun hf => ?_, fun _ => ⟨?_, ?_⟩⟩
       · rw [hb] at hf; cases hf
       · intro i hi hin
@@ -825,21 +825,21 @@ theorem randomProjection_fit (F : Fn α) (nRow nCol : Nat) (b : Mat α) (nnz : N
       have hb' : ga.1 = false := by simpa using hb
       refine ⟨rfl, hb'.symm, ?_⟩
       intro hn c hc
-      have hcf := randomProjection_closed_form F n hn ga.2.2 reg alpha (getRegularization_nonneg _ _) K rw nm (g n)
+      have hcf := randomProjection_closed_form F n hn ga.2.2 reg alpha K rw nm (g n)
       refine ⟨fun _ i hi => hcf i c hi hc, fun ht => ?_⟩
       rw [hb'] at ht; cases ht
 
 /-- **C09 / RandomProjection, unit norm**: with `normalized=True` every row of the embedding whose closed form is
     non-null has Euclidean norm 1. -/
 theorem randomProjection_unit_norm (F : Fn α) (n : Nat) (hn : 0 < n) (adjacency : Mat α) (reg alpha : α)
-    (hreg : 0 ≤ reg) (K : Nat) (rw : Bool) (q : Mat α) (i : Nat) (hi : i < n) :
+    (K : Nat) (rw : Bool) (q : Mat α) (i : Nat) (hi : i < n) :
     let k := (q.getD 0 []).length
     let closed := mkMat n k (Spec.rpClosedForm n (Spec.rpMultiplierEntry n adjacency reg rw) alpha (mget q) K)
     F.sqrt (sqNorm k closed i) * F.sqrt (sqNorm k closed i) = sqNorm k closed i →
     (∃ c, c < k ∧ mget closed i c ≠ 0) →
     sqNorm k (rpEmbedding F n adjacency reg alpha K rw true q) i = 1 := by
   intro k closed hsq hnn
-  have hcf := randomProjection_closed_form F n hn adjacency reg alpha hreg K rw true q
+  have hcf := randomProjection_closed_form F n hn adjacency reg alpha K rw true q
   simp only [if_true] at hcf
   have : sqNorm k (rpEmbedding F n adjacency reg alpha K rw true q) i = sqNorm k (normalize2 F n k closed) i := by
     unfold sqNorm
